@@ -558,6 +558,24 @@ class Case:
             b.data_frames["same"].write_cell("changed", position=[0, 1])
             df.units = ["ms", None, "mV"]
         self.sigs.append(("dimlink", "frame_columns"))
+        # a frame that carries no units at all: the linked dimension has the column's values and name, and no unit
+        from collections import OrderedDict
+        nu = b.create_data_frame("nounits_" + tname, "frame", col_dict=OrderedDict([("t", nix.DataType.Double), ("k", nix.DataType.Int64)]),
+                                 data=[(0.5, 1), (1.5, 2), (2.5, 3), (3.5, 4)])
+        r3 = hd2.append_range_dimension()
+        r3.link_data_frame(nu, 0)
+        try:
+            d2 = hd2.dimensions[2]
+            ctx.count("frame_link_checks")
+            got = (d2.unit, d2.label, [float(x) for x in d2.ticks])
+            if got != (None, "t", [0.5, 1.5, 2.5, 3.5]):
+                self.viol("dimlink:unitless_frame_column_differs", {"got": list(got), "expected": [None, "t", [0.5, 1.5, 2.5, 3.5]]})
+        except Exception as e:
+            from ..core import raised_in_library
+            if not raised_in_library(e):
+                raise
+            self.viol("dimlink:unitless_frame_column_raises_%s" % type(e).__name__, {"error": repr(e)[:200]})
+        self.sigs.append(("dimlink", "unitless_frame_column"))
 
     # ---- membership ----------------------------------------------------------------------------------------
     def membership(self, f):
